@@ -38,7 +38,7 @@ fn panic_violation(ctx: &mut Ctx, monitor: &'static str, subject: &str, b: &[u8]
     ctx.violate(
         "no-panic",
         subject,
-        &format!("panic@{}", crate::drive::site_file(&p.site)),
+        &crate::drive::panic_feature(&p),
         || bytes_case(monitor, b),
         "parser and accessors return normally",
         format!("panic at {}: {}", short_site(&p.site), p.msg),
